@@ -1547,6 +1547,11 @@ pub fn generate(seed: u64, kind: Kind, opts: &RunOpts) -> Case {
     if gen_kind == Kind::C03 {
         case.close_in_drain = [rng.chance(1, 2), rng.chance(1, 4)];
     }
+    // half of the Byzantine runs only inject segments a conforming receiver
+    // must discard at once (below the window, or no SYN/RST in SYN-SENT), so
+    // that nothing forged sits in the reordering queue and the "no effect"
+    // oracle stays armed for the whole run
+    let forge_strict = gen_kind == Kind::C17 && rng.chance(1, 2);
     let avoid_passive_early_write = opts.avoids("no_passive_write_before_established");
     let avoid_close_unsent = opts.avoids("no_close_with_unsent_text");
     let avoid_shrinking_window = opts.avoids("no_shrinking_window");
@@ -1650,6 +1655,21 @@ pub fn generate(seed: u64, kind: Kind, opts: &RunOpts) -> Case {
                                 len = rng.below(mss.min(3000) as u64 + 1) as u16;
                             }
                             let victim = w.snap(to as usize);
+                            let mut sb = rng.below(2) as u8;
+                            let mut so = so;
+                            if forge_strict {
+                                match victim.map(|v| v.state) {
+                                    Some(State::SynSent) => {
+                                        flags &= !0x06; // neither SYN nor RST
+                                    }
+                                    _ => {
+                                        // entirely below RCV.NXT - 1
+                                        sb = 0;
+                                        let seg_len = len as i32 + (flags & 0x02 != 0) as i32 + (flags & 0x01 != 0) as i32;
+                                        so = -(seg_len.max(1) + 1 + rng.below(70_000) as i32);
+                                    }
+                                }
+                            }
                             if avoid_shrinking_window {
                                 wnd = 65_535;
                             }
@@ -1663,7 +1683,7 @@ pub fn generate(seed: u64, kind: Kind, opts: &RunOpts) -> Case {
                             Op::F {
                                 to,
                                 flags,
-                                sb: rng.below(2) as u8,
+                                sb,
                                 so,
                                 ab: rng.below(2) as u8,
                                 ao,
